@@ -249,7 +249,7 @@ func TestVerifC42Codec(t *testing.T) {
 	}
 
 	cfgSizes := []uint{0, 1, 15, 16, 17, 31, 32, 64, 100, 128, 256, 512, 1000, 1024, 2048, 4096, 1 << 20}
-	ncases := c.N(250, 6000)
+	ncases := c.N(250, 20000)
 	for i := 0; i < ncases && c.Violations() < 20; i++ {
 		r := c.Rand(6, uint64(i))
 		cfgA, cfgB := config.GetDefaultLocal(), config.GetDefaultLocal()
